@@ -37,6 +37,7 @@ type Op struct {
 	End      int64  `json:"-"`
 	Gid      uint64 `json:"-"`
 	ModTime  int64  `json:"-"` // stat / lstat: modification time reported (unix nanos)
+	Len      int    `json:"-"` // write operations: number of bytes requested
 }
 
 func (o Op) String() string {
@@ -242,6 +243,13 @@ func (c *Client) doP(opp *Op, exec func(short bool) (int, error)) (int, error) {
 			if fault.Err != nil {
 				err = fault.Err
 			}
+		}
+	case fault.Kind == "silent" && (op.Kind == "write" || op.Kind == "writeat" || op.Kind == "writestring"):
+		// a write that persists only part of the data yet reports complete success
+		op.Injected = true
+		n, err = exec(true)
+		if err == nil {
+			n = op.Len
 		}
 	default:
 		op.Injected = true
@@ -465,6 +473,12 @@ func (f *File) op(kind string, mut bool) Op {
 	return Op{Kind: kind, Path: f.name, Handle: f.id, Mutating: mut}
 }
 
+func (f *File) wop(kind string, n int) Op {
+	o := f.op(kind, true)
+	o.Len = n
+	return o
+}
+
 func (f *File) noteWrite(n int) {
 	if n <= 0 {
 		return
@@ -512,7 +526,7 @@ func (f *File) Seek(offset int64, whence int) (int64, error) {
 }
 
 func (f *File) Write(p []byte) (int, error) {
-	n, err := f.c.do(f.op("write", true), func(short bool) (int, error) {
+	n, err := f.c.do(f.wop("write", len(p)), func(short bool) (int, error) {
 		if short {
 			return f.File.Write(p[:len(p)/2])
 		}
@@ -523,7 +537,7 @@ func (f *File) Write(p []byte) (int, error) {
 }
 
 func (f *File) WriteAt(p []byte, off int64) (int, error) {
-	n, err := f.c.do(f.op("writeat", true), func(short bool) (int, error) {
+	n, err := f.c.do(f.wop("writeat", len(p)), func(short bool) (int, error) {
 		if short {
 			return f.File.WriteAt(p[:len(p)/2], off)
 		}
@@ -534,7 +548,7 @@ func (f *File) WriteAt(p []byte, off int64) (int, error) {
 }
 
 func (f *File) WriteString(s string) (int, error) {
-	n, err := f.c.do(f.op("writestring", true), func(short bool) (int, error) {
+	n, err := f.c.do(f.wop("writestring", len(s)), func(short bool) (int, error) {
 		if short {
 			return f.File.WriteString(s[:len(s)/2])
 		}
